@@ -159,6 +159,9 @@ func placed(inner, placement string) string {
 		return inner + " LIMIT 0"
 	case "offsetall":
 		return inner + " LIMIT 5 OFFSET 7"
+	case "joinboth":
+		// below the top level, both sides derived tables with ASYNC calls of their own
+		return "SELECT * FROM (SELECT * FROM (" + inner + ") x JOIN (SELECT k, ASYNC.sf(k) AS w FROM u) y ON x.m = y.k) z"
 	case "joinleft":
 		return "SELECT * FROM (" + inner + ") x JOIN u y ON x.m = y.k"
 	case "joinright":
@@ -175,6 +178,9 @@ func placedWant(rows []any, placement string) []any {
 	out := []any{}
 	switch placement {
 	case "limit0", "offsetall":
+	case "dim2":
+		k := (len(rows) + 1) / 2
+		return []any{append([]any{}, rows[:k]...), append([]any{}, rows[k:]...)}
 	case "derived":
 		for _, r := range rows {
 			out = append(out, map[string]any{"x": r})
@@ -182,6 +188,11 @@ func placedWant(rows []any, placement string) []any {
 	case "joinleft", "joinright":
 		for _, r := range rows {
 			out = append(out, map[string]any{"x": r, "y": map[string]any{"k": r.(map[string]any)["m"]}})
+		}
+	case "joinboth":
+		for _, r := range rows {
+			m := r.(map[string]any)["m"].(float64)
+			out = append(out, map[string]any{"z": map[string]any{"x": r, "y": map[string]any{"k": m, "w": m * 10}}})
 		}
 	default:
 		return rows
@@ -338,7 +349,20 @@ func checkAsyncOutcome(r *asyncRun, items []string, nrows int, res execResult, s
 		}
 	}
 	want := placedWant(asyncWant(items, nrows), placement)
-	if strings.HasPrefix(placement, "join") {
+	if placement == "joinboth" {
+		// order by z.x.m
+		unwrapped := []any{}
+		for _, r := range res.rows {
+			if m, ok := r.(map[string]any); ok {
+				unwrapped = append(unwrapped, m["z"])
+			}
+		}
+		sorted := byXM(unwrapped)
+		res.rows = []any{}
+		for _, r := range sorted {
+			res.rows = append(res.rows, map[string]any{"z": r})
+		}
+	} else if strings.HasPrefix(placement, "join") {
 		res.rows = byXM(res.rows)
 	}
 	if !Equal(any(res.rows), any(want)) {
@@ -355,10 +379,21 @@ func checkC14(c Node) Verdict {
 	}
 	placements := []string{""}
 	if n, _ := c["nested"].(bool); n {
-		placements = []string{"derived", "cte", "joinleft", "joinright"}
+		placements = []string{"derived", "cte", "joinleft", "joinright", "joinboth"}
 	}
 	if c["window"] == "empty" {
 		placements = []string{"limit0", "offsetall"}
+	}
+	if n, _ := c["nested"].(bool); !n && c["window"] != "empty" && num(c["failrow"]) == 0 && num(c["nrows"]) >= 2 {
+		once := false
+		for _, k := range strs(c["items"]) {
+			once = once || k == "once" || k == "oncenull"
+		}
+		if !once {
+			// the same rows as a two-dimensional table: every inner array is evaluated by a copy of the query, whose
+			// pending calls the query has to wait for just the same
+			placements = append(placements, "dim2")
+		}
 	}
 	var v Verdict
 	for _, p := range placements {
@@ -397,7 +432,13 @@ func checkC14Placed(c Node, placement string) Verdict {
 			}
 			done <- res
 		}()
-		q, err := genql.New(asyncDoc(nrows), sql)
+		doc := asyncDoc(nrows)
+		if placement == "dim2" {
+			rows := doc["t"].([]any)
+			k := (len(rows) + 1) / 2
+			doc["t"] = []any{append([]any{}, rows[:k]...), append([]any{}, rows[k:]...)}
+		}
+		q, err := genql.New(doc, sql)
 		if err != nil {
 			res.err = err
 			return
@@ -620,7 +661,9 @@ func checkRegistry(c Node) Verdict {
 	uniq := func(n string) string { return fmt.Sprintf("rg%d_%s", regCounter, n) }
 	counters := map[string]*atomic.Int64{} // per name: SPIN calls of another name may still be running
 	v := Verdict{OK: true, Sig: []string{"registry"}, Nontrivial: true}
-	doc := func() map[string]any { return map[string]any{"t": []any{map[string]any{"a": float64(1)}, map[string]any{"a": float64(2)}}} }
+	doc := func() map[string]any {
+		return map[string]any{"t": []any{map[string]any{"a": float64(1)}, map[string]any{"a": float64(2)}}}
+	}
 	for step, e := range seq(c["hist"]) {
 		e := e.(Node)
 		id := int(num(e["id"]))
@@ -717,4 +760,68 @@ func histText(c Node, upto int) string {
 		parts = append(parts, fmt.Sprintf("%s(%s)", e["op"], e["name"]))
 	}
 	return strings.Join(parts, " ")
+}
+
+// a failed Exec, then the same Query once more: the second run is a run like any other
+func init() {
+	var failNext atomic.Bool
+	genql.RegisterFunction("failonce", func(q *genql.Query, cur genql.Map, fo *genql.FunctionOptions, args []any) (any, error) {
+		if failNext.CompareAndSwap(true, false) {
+			return nil, fmt.Errorf("failonce: the first call fails")
+		}
+		return args[0], nil
+	})
+	Drivers["C14:retry"] = func(emit func(Verdict)) {
+		for _, tc := range []struct{ sql, under string }{
+			{"SELECT x.m AS m, x.v AS v, failonce(x.m) AS f FROM (SELECT a AS m, ASYNC.sf(a) AS v FROM t) x", ""},
+			{"SELECT *, failonce(1) AS f FROM (SELECT a AS m, ASYNC.sf(a) AS v, SPINASYNC.sf(a) FROM t) x", "x"},
+			{"SELECT a AS m, ASYNC.sf(a) AS v, failonce(a) AS f FROM t", ""},
+			{"WITH c AS (SELECT a AS m, ASYNC.sf(a) AS v FROM t) SELECT m, v, failonce(m) AS f FROM c", ""},
+		} {
+			for n := 1; n <= 3; n++ {
+				sig := []string{"retry"}
+				v := Verdict{OK: true, SQL: tc.sql, Sig: sig, Execs: 2, Nontrivial: true, Key: fmt.Sprintf("%s/%d", tc.sql, n), Case: Node{"sql": tc.sql, "rows": n}}
+				func() {
+					defer func() {
+						if p := recover(); p != nil {
+							v = fail("panic", tc.sql, sig, "panic escaped the API: %v", p)
+						}
+					}()
+					failNext.Store(false)
+					q, err := genql.New(asyncDoc(n), tc.sql)
+					if err != nil {
+						v = fail("error", tc.sql, sig, "New failed: %v", err)
+						return
+					}
+					failNext.Store(true)
+					if _, err := q.Exec(); err == nil {
+						v = Verdict{OK: false, Kind: "harness", Detail: "the first Exec did not fail"}
+						return
+					}
+					rows, err := q.Exec()
+					if err != nil {
+						v = fail("error", tc.sql, sig, "the second Exec of the same Query failed: %v", err)
+						return
+					}
+					if len(rows) != n {
+						v = fail("result", tc.sql, sig, "second Exec: %d rows for %d: %s", len(rows), n, Canon(any(rows)))
+						return
+					}
+					for i, r := range rows {
+						row, _ := r.(map[string]any)
+						if tc.under != "" && row != nil {
+							inner, _ := row[tc.under].(map[string]any)
+							row = inner
+						}
+						if row == nil || !Equal(row["m"], float64(i+1)) || !Equal(row["v"], float64((i+1)*10)) {
+							v = fail("result", tc.sql, sig, "second Exec of the same Query after a failed one: row %d is %s (m = %d, v = %d expected)", i+1, Canon(r), i+1, (i+1)*10)
+							return
+						}
+					}
+				}()
+				v.Key, v.Case = fmt.Sprintf("%s/%d", tc.sql, n), Node{"sql": tc.sql, "rows": n}
+				emit(v)
+			}
+		}
+	}
 }
